@@ -67,6 +67,66 @@ function C05 uses as stride and C08 for field offsets). -/
 theorem C07_footprint_is_layout (abi : Abi) (t : BaseTy) : (CTy.base t).size abi = (t.guest abi).bytes := by
   simp [CTy.size, CTy.sizeAlign]
 
+/-- Copies between sandbox references of (possibly different) integer types, `*p_T = *p_U`:
+frame -- nothing outside the destination's `guestSize T` bytes changes -- ... -/
+theorem C07_copy_frame (abi : Abi) (t u : BaseTy) (dst src : Nat) (m m' : Mem)
+    (h : tvCopy abi t u dst src m = some m') :
+    ∀ x, x < dst ∨ dst + (t.guest abi).bytes ≤ x → m' x = m x := by
+  unfold tvCopy at h
+  split at h
+  · cases h
+  · cases h
+    intro x hx
+    apply write_frame
+    simpa using hx
+
+/-- ... and value: the source is read with ITS OWN guest width, sign and size; when the copy does
+not abort, the destination cell then holds the same mathematical value, and it aborts exactly when
+that value is not representable in the destination's guest type. (Pairs with a `bool` destination
+and a non-`bool` source are outside C06, see `C06_abi_pairs`.) -/
+theorem C07_copy_value (abi : Abi) (habi : abi.wf) (t u : BaseTy) (dst src : Nat) (m : Mem)
+    (hb : (t.guest abi).isBool = true → (u.guest abi).isBool = true)
+    (hsrc : (u.guest abi).inRange (guestValueAt abi u src m)) :
+    (∀ m', tvCopy abi t u dst src m = some m' →
+        guestValueAt abi t dst m' = guestValueAt abi u src m ∧ (t.guest abi).inRange (guestValueAt abi u src m)) ∧
+    (tvCopy abi t u dst src m = none ↔ ¬ (t.guest abi).inRange (guestValueAt abi u src m)) := by
+  have hwf : ∀ b : BaseTy, (b.guest abi).wf := by
+    intro b
+    obtain ⟨h1, h2, h3, h4⟩ := habi
+    cases b <;> simp [BaseTy.guest, IntTy.wf, *]
+  have hf := C06.C06_scalar_partial (t.guest abi) (u.guest abi) (guestValueAt abi u src m) (hwf t) (hwf u) hb hsrc
+  unfold C06.Faithful at hf
+  unfold tvCopy
+  unfold guestValueAt at hf hsrc ⊢
+  rcases hf with ⟨he, hin⟩ | ⟨he, hnin⟩
+  · rw [he]
+    refine ⟨?_, by simp [hin]⟩
+    intro m' hm
+    cases hm
+    refine ⟨?_, hin⟩
+    have hlen : (encodeLE (t.guest abi).bytes ((t.guest abi).toBits ((u.guest abi).ofBits (decodeLE (m.read src (u.guest abi).bytes))))).length = (t.guest abi).bytes := by simp
+    have hr := read_write_same m dst (encodeLE (t.guest abi).bytes ((t.guest abi).toBits ((u.guest abi).ofBits (decodeLE (m.read src (u.guest abi).bytes)))))
+    rw [hlen] at hr
+    rw [hr, decode_encode, ofBits_toBits _ _ (hwf t) hin]
+  · rw [he]
+    refine ⟨?_, ?_⟩
+    · intro m' hm; cases hm
+    · simp only [true_iff]; exact hnin
+
+/-- A pointer store writes exactly the `ptrBytes` bytes of the cell. -/
+theorem C07_ptr_frame (s : Sbx) (off a : Nat) (m : Mem) :
+    ∀ x, x < off ∨ off + s.ptrBytes ≤ x → ptrStoreMem s off a m x = m x := by
+  intro x hx
+  unfold ptrStoreMem
+  apply write_frame
+  simpa using hx
+
+/-- non-vacuity: a guest `short` holding -2 copied into a guest `long` (4 bytes under ABI A) is sign-extended,
+the byte after the destination keeps its value; 200 in a guest `unsigned char` does not fit a `signed char` -/
+example : (tvCopy abiA .long .short 8 0 (fun x => if x = 0 then 0xFE else if x = 1 then 0xFF else 0x11)).map (fun m => m.read 8 5) =
+    some [0xFE, 0xFF, 0xFF, 0xFF, 0x11] := by decide
+example : (tvCopy abiA .schar .uchar 8 0 (fun x => if x = 0 then 200 else 0)).isNone = true := by decide
+
 /-- non-vacuity: `long` under ABI A occupies 4 bytes; 2^31 does not fit and aborts -/
 example : (tvStore abiA .long 100 (-2) (fun _ => 0x11)).map (fun m => (m.read 98 8)) =
     some [0x11, 0x11, 0xFE, 0xFF, 0xFF, 0xFF, 0x11, 0x11] := by decide
